@@ -137,6 +137,8 @@ pub struct RunOpts {
     pub discover_config: bool,
     /// see run::Spawn::hash_seed
     pub hash_seed: Option<u64>,
+    /// see run::Spawn::fsize_limit
+    pub fsize_limit: Option<u64>,
 }
 
 pub fn run_generate(root: &Path, seam: Seam, opts: &RunOpts) -> ProcRun {
@@ -156,7 +158,7 @@ pub fn run_generate(root: &Path, seam: Seam, opts: &RunOpts) -> ProcRun {
                 cwd: root,
                 schedule_env: opts.schedule_env.clone(),
                 trace_file: opts.trace_file.clone(),
-                strace: opts.strace.clone(), hash_seed: opts.hash_seed
+                strace: opts.strace.clone(), hash_seed: opts.hash_seed, fsize_limit: opts.fsize_limit
             })
         }
         Seam::Build => run::spawn(Spawn {
@@ -165,7 +167,7 @@ pub fn run_generate(root: &Path, seam: Seam, opts: &RunOpts) -> ProcRun {
             cwd: root,
             schedule_env: opts.schedule_env.clone(),
             trace_file: opts.trace_file.clone(),
-            strace: opts.strace.clone(), hash_seed: opts.hash_seed
+            strace: opts.strace.clone(), hash_seed: opts.hash_seed, fsize_limit: opts.fsize_limit
         }),
     }
 }
